@@ -45,7 +45,8 @@ K3, K2, K1 = ("Tuple", ("Node",), ("Node",), ("Int",)), ("Tuple", ("Int",), ("In
 KEYENC = {K3: ("vkey3", "eqb3"), K2: ("vkey2", "eqb2"), K1: ("vkey1", "Z.eqb"), ("Tuple", ("Node",), ("Node",)): ("vkeyE", "edge_eqb")}
 # name_prefix="<literal>" of self.solver.add_variables in the model classes -> variable family of Lin.v (the table of harness/e1.py)
 PREFIX_LITERAL = {"edge": "fEdge", "pi": "fPi", "w": "fW", "r": "fR", "position": "fPos", "path_length": "fLen",
-                  "weights": "fW", "ee": "fErr", "slack": "fSlack", "gamma": "fGamma", "path_slack_scaled": "fFactor", "scaled_slack": "fSSlack"}
+                  "weights": "fW", "ee": "fErr", "slack": "fSlack", "gamma": "fGamma", "path_slack_scaled": "fFactor", "scaled_slack": "fSSlack",
+                  "subset": "fSub", "edge_vars": "fX", "edge_error_vars": "fErr"}
 # name / name_prefix f-strings handed to the wrapper helpers by the model classes: f"<literal>{i}" names the helper variables of layer i after
 # the variable V <family> [i] (harness/e1err.py reads the same names back: binary_scaled_slack_i<i> -> Bit (SSlack i) .., z_error_scale_<i> -> Zsel (Factor i) ..)
 HNAME_FSTRING = {"scaled_slack_i": "fSSlack", "error_scale_": "fFactor"}          # kLeastAbsErrors / kMinPathError name their weight columns "weights", the error columns "ee"
@@ -174,6 +175,24 @@ TARGETS["encode_kmpe_obj"] = dict(
     file="flowpaths/kminpatherror.py", cls="kMinPathError", func="_encode_objective", params=[SELFOBJ], defaults=[], ret=NONE, emits=True,
     selfobj=dict(inputs=[("solver", WRAP), ("k", INT), ("path_slacks_vars", VarDictK("fSlack", K1))], outputs=[], calls={}))
 
+# ---- MinSetCover._encode_set_cover: subset variables, one cover row per universe element, the weighted objective
+TARGETS["encode_msc"] = dict(
+    file="flowpaths/minsetcover.py", cls="MinSetCover", func="_encode_set_cover", params=[SELFOBJ], defaults=[], ret=NONE, emits=True,
+    selfobj=dict(inputs=[("solver", WRAP), ("universe", List(NODE)), ("subsets", List(List(NODE))), ("subset_weights", List(NUM))],
+                 outputs=[("subset_indexes", List(K1)), ("subset_vars", VarDictK("fSub", K1))], calls={}))
+
+# ---- MinErrorFlow: corrected-flow and error variables, conservation rows, |f - x| <= err rows; the objective (scaled errors + sparsity term)
+TARGETS["encode_mef"] = dict(
+    file="flowpaths/minerrorflow.py", cls="MinErrorFlow", func="_encode_flow", params=[SELFOBJ], defaults=[], ret=NONE, emits=True,
+    selfobj=dict(inputs=[("solver", WRAP), ("G", GRAPH), ("ub", NUM), ("edges_to_ignore", Set(EDGE)), ("flow_attr", ATTR)],
+                 outputs=[("edge_indexes", List(EDGE)), ("edge_vars", VarDictK("fX", EDGE)), ("edge_error_vars", VarDictK("fErr", EDGE))],
+                 calls={"self.weight_type == int": ("weight_is_int", BOOL)}))
+TARGETS["encode_mef_obj"] = dict(
+    file="flowpaths/minerrorflow.py", cls="MinErrorFlow", func="_encode_min_sum_errors_objective", params=[SELFOBJ], defaults=[], ret=NONE, emits=True,
+    selfobj=dict(inputs=[("solver", WRAP), ("G", GRAPH), ("edge_vars", VarDictK("fX", EDGE)), ("edge_error_vars", VarDictK("fErr", EDGE)),
+                         ("edges_to_ignore", Set(EDGE)), ("edge_error_scaling", Dict(EDGE, NUM)), ("sparsity_lambda", NUM)],
+                 outputs=[], calls={"self.G.source": ("source", NODE)}))
+
 # a query of stDiGraph on data networkx computed (condensation): the expressions below are inputs of the model
 TARGETS["is_scc_edge"] = dict(file="flowpaths/stdigraph.py", cls="stDiGraph", func="is_scc_edge", params=[SELFOBJ, NODE, NODE], defaults=[], ret=BOOL,
                               selfobj=dict(inputs=[], outputs=[],
@@ -252,6 +271,7 @@ def join(a, b, node=None):
     if a in NUMERIC and b in NUMERIC:
         return a if NUMERIC[a] >= NUMERIC[b] else b
     if a in (VAR, LEXP) and b in (VAR, LEXP): return LEXP        # a variable or a linear expression: a linear expression
+    if (a == LEXP and b in (INT, NUM)) or (b == LEXP and a in (INT, NUM)): return LEXP      # `expr if c else 0` as a summand: the number is a constant expression
     if a == NONE: return b if b[0] == "Opt" else Opt(b)
     if b == NONE: return a if a[0] == "Opt" else Opt(a)
     if a[0] == "Opt" and b[0] == "Opt": return Opt(join(a[1], b[1], node))
@@ -464,6 +484,9 @@ class Fn:
             for s in stmts:
                 if isinstance(s, ast.Assign) and len(s.targets) == 1 and self.self_attr(s.targets[0]) in self.s_out:
                     continue          # assignment to an output attribute of self
+                if isinstance(s, ast.Assign) and len(s.targets) == 1 and self.self_attr(s.targets[0]) is not None \
+                        and self.s_in.get(self.self_attr(s.targets[0])) == WRAP:
+                    continue          # self.solver = <fresh wrapper> (checked in stmt)
                 if isinstance(s, ast.Assign):
                     if len(s.targets) != 1 or not isinstance(s.targets[0], ast.Name):
                         raise Unsupported("assignment target (only `name = expr`)", s)
@@ -883,18 +906,25 @@ class Fn:
                     c = "c%d" % env["ncomp"][0]; env["ncomp"][0] += 1
                     env["bound"][v] = (c, ty, self.src_key(g.iter) if len(names) == 1 else None); bound_now.append(v); cn.append(c)
                 pat = cn[0] if len(cn) == 1 else "'(" + ", ".join(cn) + ")"
+                fguards = []; fcond = None; it0 = it
                 for cond in g.ifs:          # [.. for v in L if C]: the elements of L that satisfy C, in order
                     ct, cty, cg = self.expr(cond, env)
                     if cty != BOOL: raise Unsupported("comprehension filter of type %s" % show(cty), cond)
-                    if cg: raise Unsupported("partial operation in a comprehension filter", cond)
+                    if cg and (len(g.ifs) != 1 or len(e.generators) != 1): raise Unsupported("partial operation in one of several comprehension filters", cond)
+                    fguards = cg; fcond = ct
                     it = "(filter (fun %s => %s) %s)" % (pat, ct, it)
                 pats.append(pat); its.append(it)
             t, ty, tg = self.expr(e.elt, env)
+            if len(e.generators) == 1 and e.generators[0].ifs and fguards:
+                # Python evaluates, element by element of the UNFILTERED list, first the filter (its partial operations), then — if it holds — the element
+                tg = list(fguards) + [("(andb %s %s)" % (fcond, x), ex) for x, ex in tg]
+                hoist_list = it0
+            else: hoist_list = None
         finally:
             for v in bound_now: del env["bound"][v]
         if len(pats) == 1:
             term = "(map (fun %s => %s) %s)" % (pats[0], t, its[0])
-            allpat, alllist = pats[0], its[0]
+            allpat, alllist = pats[0], (hoist_list if hoist_list is not None else its[0])
         else:
             term = "(flat_map (fun %s => map (fun %s => %s) %s) %s)" % (pats[0], pats[1], t, its[1], its[0])
             allpat = "'(%s, %s)" % (pats[0].lstrip("'"), pats[1].lstrip("'"))
@@ -1045,6 +1075,11 @@ class Fn:
                     return "(py_quicksum %s)" % t, LEXP, rg + g
                 raise Unsupported("call of self.%s in an expression" % m, e)
             if rty == GRAPH:
+                if m == "edges" and not e.args and not kw: return "(map fst (PyRt.g_edges %s))" % recv, List(EDGE), rg
+                if m in ("out_edges", "in_edges") and len(e.args) == 1 and not kw:
+                    v, vty, vg = self.expr(e.args[0], env)
+                    if vty != NODE: raise Unsupported("%s of a non-node" % m, e)
+                    return "(map fst (py_%s %s %s))" % (m, recv, v), List(EDGE), rg + vg
                 if m == "nodes" and not e.args and not kw: return "(g_nodes %s)" % recv, List(NODE), rg
                 if m == "edges" and not e.args and data_true(): return "(g_edges %s)" % recv, List(DEDGE), rg
                 if m in ("out_edges", "in_edges") and len(e.args) == 1 and data_true():
@@ -1348,6 +1383,14 @@ class Fn:
             b, _ = self.block(s.body, env)
             env["defined"] = d0; env["inloop"] = inloop0
             return "py_while fuel (fun s => %s)\n%s" % (t, self.ind(b)), True
+        if isinstance(s, ast.Assign) and len(s.targets) == 1 and self.self_attr(s.targets[0]) is not None and self.s_in.get(self.self_attr(s.targets[0])) == WRAP:
+            # self.solver = sw.SolverWrapper(**self.solver_options): a fresh, empty wrapper — exactly the state the emitter starts from.
+            # Only as the first statement (nothing emitted before it can be lost), with the module imported under that name.
+            body = [x for x in self.fdef.body if not (isinstance(x, ast.Expr) and isinstance(x.value, ast.Constant) and isinstance(x.value.value, str))]
+            if not (self.emits and body and body[0] is s and ast.unparse(s.value) == "sw.SolverWrapper(**self.solver_options)"
+                    and self.module_imports.get("sw") == "flowpaths.utils.solverwrapper"):
+                raise Unsupported("assignment to the wrapper attribute (only `self.solver = sw.SolverWrapper(**self.solver_options)` as the first statement)", s)
+            return None, True
         if isinstance(s, ast.Assign) and len(s.targets) == 1 and self.self_attr(s.targets[0]) in self.s_out \
                 and not (self.emits and self.self_call(s.value, env) == "add_variables"):
             a = self.self_attr(s.targets[0]); want = self.s_out[a]
@@ -1614,7 +1657,8 @@ REJECT = {
     "sum()": "return sum(edge_lengths.get(e, 1) for e in seq)",
     "any()": "r = 0\nif any(e in seq for e in seq):\n    r = 1\nreturn r",
     "comprehension with three generators": "s = [e for e in seq for f in seq for g in seq]\nreturn 0",
-    "comprehension filter with a partial operation": "s = [e for e in seq if edge_lengths[e] > 0]\nreturn 0",
+    "partial operation in one of two comprehension filters": "s = [e for e in seq if edge_lengths[e] > 0 if e in edge_lengths]\nreturn 0",
+    "assignment to an attribute of a parameter": "seq.solver = 0\nreturn 0",
     "comprehension filter with two generators": "s = [e for p in paths_in_DAG for e in seq if e in edge_lengths]\nreturn 0",
     "comprehension filter that is not a boolean": "s = [e for e in seq if len(seq)]\nreturn 0",
     "loop variable in an f-string after a loop over a local list": "for e in seq:\n    pass\nraise ValueError(f'{e}')",
